@@ -45,6 +45,8 @@ pub struct Segment {
     pub indexes: Option<Vec<Index>>,
     pub(super) log_size_bytes: Arc<AtomicU64>,
     pub(super) index_size_bytes: Arc<AtomicU64>,
+    /// Background tasks that are still flushing and closing the writers of this segment.
+    pub(super) closing_tasks: Vec<tokio::task::JoinHandle<()>>,
 }
 
 impl Segment {
@@ -106,6 +108,7 @@ impl Segment {
             config,
             log_size_bytes: Arc::new(AtomicU64::new(0)),
             index_size_bytes: Arc::new(AtomicU64::new(0)),
+            closing_tasks: Vec::new(),
         }
     }
 
@@ -287,12 +290,12 @@ impl Segment {
 
     pub async fn shutdown_writing(&mut self) {
         if let Some(log_writer) = self.log_writer.take() {
-            tokio::spawn(async move {
+            self.closing_tasks.push(tokio::spawn(async move {
                 #[cfg(feature = "verif")]
                 crate::verif::sched_point("segment_close_task").await;
                 let _ = log_writer.fsync().await;
                 log_writer.shutdown_persister_task().await;
-            });
+            }));
         } else {
             warn!(
                 "Log writer already closed when calling close() for {}",
@@ -301,12 +304,27 @@ impl Segment {
         }
 
         if let Some(index_writer) = self.index_writer.take() {
-            tokio::spawn(async move {
+            self.closing_tasks.push(tokio::spawn(async move {
                 let _ = index_writer.fsync().await;
                 drop(index_writer)
-            });
+            }));
         } else {
             warn!("Index writer already closed when calling close()");
+        }
+    }
+
+    /// Closes the writers like `shutdown_writing()`, but returns only once everything handed to
+    /// the background persister and to earlier closing tasks has reached the files.
+    pub async fn shutdown_writing_and_wait(&mut self) {
+        if let Some(log_writer) = self.log_writer.take() {
+            let _ = log_writer.fsync().await;
+            log_writer.shutdown_persister_task().await;
+        }
+        if let Some(index_writer) = self.index_writer.take() {
+            let _ = index_writer.fsync().await;
+        }
+        for closing_task in self.closing_tasks.drain(..) {
+            let _ = closing_task.await;
         }
     }
 
